@@ -432,7 +432,8 @@ def run(chk, replay=None):
     if replay is not None:
         raw = build_case(replay['input'])
         rep, saved, doc, printed = run_package(raw)
-        bad = [x for x in rep.items if x[0] == replay.get('signature')] or rep.items
+        known = set(k['sig'] for k in chk.known)
+        bad = [x for x in rep.items if (x[0] == replay['signature'] if replay.get('signature') else x[0] not in known)]
         for sig, det in bad[:10]:
             print('replay: %s :: %s' % (sig, det[:300]))
         return 1 if bad else 0
